@@ -27,6 +27,8 @@ MCLayoutsB == {L_2_3, L_3_2}
 MCLayoutsC == {L_1, L_2, L_3}
 L_5_2 == Lay(<<<<1, 5>>, <<5, 2>>>>)
 MCLayoutsF == {L_3_2, L_5_2}
+MCLayoutsG == {L_3_2}
+XffThirds == {<<1, 3>>, <<2, 3>>}
 XffFifths == {<<1, 5>>, <<3, 5>>, <<1, 3>>, <<2, 3>>}
 MCLayouts3 == {L_2_2_2}
 MCLayoutsD == {L_22_42}
